@@ -298,6 +298,38 @@ let run_wfault (payload : string) : string =
        | M.WPanic -> "panic")
   | _ -> failwith "bad wfault head"
 
+(* whistory: "<c|j> <line> <indent> <oracle> ;; <kind> <mode> <k> | <tokens> ;; ..." : calls on one long-lived encoder *)
+let run_whistory (payload : string) : string =
+  let rec split_calls acc cur i =
+    if i >= String.length payload then List.rev (Buffer.contents cur :: acc)
+    else if i + 1 < String.length payload && payload.[i] = ';' && payload.[i + 1] = ';'
+    then (let c = Buffer.contents cur in Buffer.clear cur; split_calls (c :: acc) cur (i + 2))
+    else (Buffer.add_char cur payload.[i]; split_calls acc cur (i + 1)) in
+  match split_calls [] (Buffer.create 256) 0 with
+  | head :: calls ->
+      let fmt, line, indent, oracle = match split_ws head with
+        | [f; l; ind; o] -> (f, opt_bytes l, opt_bytes ind, o) | _ -> failwith "bad whistory head" in
+      let parsed = List.map (fun c ->
+          let i = String.index c '|' in
+          let h = String.sub c 0 i and body = String.sub c (i + 1) (String.length c - i - 1) in
+          match split_ws h with
+          | [kind; mode; k] ->
+              ({ M.wk = nat_of_int (int_of_string k); M.wstop = (mode = "stop");
+                 M.wkind = (match kind with "err" -> M.WErr | "short" -> M.WShort | _ -> M.WBoth) }, parse_tokens body)
+          | _ -> failwith "bad whistory call") calls in
+      let rs =
+        if fmt = "c" then M.history true (M.enc_init, false) parsed
+        else
+          let o = { M.jline = line; M.jindent = (match indent with Some b -> b | None -> []) } in
+          M.jhistory (make_shortest oracle) o true (M.jenc_init, false) parsed in
+      String.concat " ;; " (List.map (function
+        | M.WReported n -> Printf.sprintf "err %d" (int_of_nat n)
+        | M.WTokenErr n -> Printf.sprintf "err %d" (int_of_nat n)
+        | M.WFinished n -> Printf.sprintf "fin %d" (int_of_nat n)
+        | M.WStarved -> "starved"
+        | M.WPanic -> "panic") rs)
+  | [] -> failwith "bad whistory payload"
+
 (* rfault: "<c|j> <hex> | <k> <stop|once>": the reader fails at byte offset k *)
 let run_rfault (payload : string) : string =
   match String.split_on_char '|' payload with
@@ -814,6 +846,7 @@ let dispatch (suite : string) (payload : string) : string =
   | "obj-unmarshal" -> run_obj_unmarshal payload
   | "transcode" -> run_transcode payload
   | "wfault" -> run_wfault payload
+  | "whistory" -> run_whistory payload
   | "rfault" -> run_rfault payload
   | "sched-dec" -> run_sched_dec payload
   | "reader" -> run_reader payload
